@@ -91,6 +91,11 @@ def plain : JsExpr → PE
 
 /-! ## the image -/
 
+/-- a tree in parentheses -/
+def isParenPE : PE → Bool
+  | .paren _ => true
+  | _ => false
+
 /-- a name of a JavaScript variable: an ASCII IdentifierName, no reserved word, not a parameter `opt_data` / `opt_ijData` -/
 def JsName (g : Bytes) : Prop := JsIdent g ∧ isReserved g = false ∧ g ≠ sOptData ∧ g ≠ sOptIj
 
@@ -115,8 +120,10 @@ def isNegNum : JsExpr → Bool
       `5.k` is a lexical error, `!(a).k` is `!((a).k)`  (`call1 .length x` is
       written `(x).length` — soyjs 0a4b4eb — and has no such restriction)
     * `call1 .nonNull a` and the `g` of `guard g r` with `a`, `g` a bare conditional
-    * `member x "length"`: its text `x.length` is read as `call1 .length x`, as `(x).length` is (the two have the
-      same meaning wherever both are defined)
+    * `member x "length"` with `x` written in parentheses (a `neg`, a binary operation, `paren`, …): its text
+      `(…).length` is that of `call1 .length`, the length FUNCTION, whose argument soyjs always parenthesises since
+      0a4b4eb; `x.length` with `x` a reference chain — the data KEY `length` — is in the image and is read as `member`
+      (`toAst` makes no other: the accesses of a reference follow a variable, `opt_data.k`, `opt_ijData` or an access)
     * `index x i` with `i < 0` (`toAst` never makes one), `paren` of a negative number (the text of `neg`)
     * identifiers outside ASCII, reserved words as variable names, the variable name `opt_data`, strings that are
       not well-formed UTF-8 (the escaper writes U+FFFD for the bad bytes) -/
@@ -133,7 +140,7 @@ def Img : JsExpr → Prop
   | .local g => JsName g
   | .optData k => JsIdent k
   | .ijData => True
-  | .member x k => Img x ∧ lv x = 0 ∧ JsIdent k ∧ k ≠ sLength
+  | .member x k => Img x ∧ lv x = 0 ∧ JsIdent k ∧ (k = sLength → isParenPE (plain x) = false)
   | .index x i => Img x ∧ lv x = 0 ∧ 0 ≤ i
   | .guard g r => Img g ∧ lv g ≤ 1 ∧ Img r
   | .paren x => Img x ∧ isNegNum x = false
@@ -280,7 +287,7 @@ theorem plain_wf : ∀ e : JsExpr, Img e → Wf (plain e)
 /-- unfold `readE` at a constructor; the side conditions of the overlapping patterns are constructor clashes -/
 macro "rd" : tactic => `(tactic| (rw [readE] <;> first | (intros; rename_i e; cases e; done) | skip))
 
-theorem readE_member_of {x : PE} {jx : JsExpr} (k : Bytes) (h : readE x = some jx) (hk : k ≠ sLength) :
+theorem readE_member_of {x : PE} {jx : JsExpr} (k : Bytes) (h : readE x = some jx) (hk : k = sLength → isParenPE x = false) :
     readE (.member x k) = some (.member jx k) := by
   have hx : isOptData x = false := by
     cases x with
@@ -290,8 +297,17 @@ theorem readE_member_of {x : PE} {jx : JsExpr} (k : Bytes) (h : readE x = some j
       | false => rfl
       | true => simp [readE, hg] at h
     | _ => rfl
-  unfold readE
-  simp [hx, h, hk]
+  cases x with
+  | paren y =>
+    have hne : (k == sLength) = false := by
+      cases hkk : (k == sLength) with
+      | false => rfl
+      | true =>
+        have := hk (by simpa using hkk)
+        simp [isParenPE] at this
+    rw [readE]
+    simp [isOptData, hne, h]
+  | _ => rw [readE] <;> simp_all
 
 /-- `(x).length` is read as `length` of what `x` is read as -/
 theorem readE_paren_length {x : PE} {jx : JsExpr} (h : readE x = some jx) :
@@ -887,7 +903,7 @@ mutual
   def ImgS : JsStmt → Prop
     | .appendLit b t => JsName b ∧ ValidUtf8 t
     | .append b e ds => JsName b ∧ Img e ∧ ∀ d ∈ ds, DirOk d
-    | .var x e => JsName x ∧ Img e
+    | .var x e => JsName x ∧ Img e ∧ ∀ l, e ≠ .member (.local l) sLength
     | .varEmpty x => JsName x
     | .ifs conds => (match conds with | .cons _ _ _ => True | _ => False) ∧ ImgConds conds
     | .varLength x l => JsName x ∧ JsName l
@@ -1321,7 +1337,7 @@ mutual
       simp only [ImgS] at h
       lexss
       rw [lex_spaces, lexk_var, lex_ident h.1.1 (sep1_cons rfl _), lex_sp, lex_set_sp,
-        LxN.render h.2 _ (sepN_cons rfl (by decide) _), lex_semi, lex_nl]
+        LxN.render h.2.1 _ (sepN_cons rfl (by decide) _), lex_semi, lex_nl]
       simp [pre_pre, plainS, tkS, tkDecls, tkDeclsTail]
     | .varEmpty x, ind, h, rest => by
       simp only [ImgS] at h
@@ -1582,7 +1598,7 @@ mutual
     | .var x e, h => by
       simp only [ImgS] at h
       simp only [plainS, WfS, WfDecls]
-      exact ⟨by simp, h.1.2.1, plain_wf e h.2, trivial⟩
+      exact ⟨by simp, h.1.2.1, plain_wf e h.2.1, trivial⟩
     | .varEmpty x, h => by
       simp only [ImgS] at h
       simp only [plainS, WfS, WfDecls, Wf]
@@ -2120,17 +2136,19 @@ theorem readVar_fall (x : Bytes) {p : PE} {jx : JsExpr} (h : readE p = some jx) 
   · exact absurd rfl (h3 _ _)
   · simp [h]
 
-/-- `l.length` in the tree of an expression of the image: only `opt_data.length` (`length` of a variable is written
-    `(l).length` since soyjs 0a4b4eb) -/
+/-- `l.length` in the tree of an expression of the image: `opt_data.length`, `opt_ijData.length`, or the key `length`
+    of the variable `l` (the length FUNCTION on a variable is written `(l).length` since soyjs 0a4b4eb) -/
 theorem plain_member_length : ∀ (e : JsExpr) (l : Bytes), Img e → plain e = .member (.ident l) sLength →
-    l = sOptData
+    l = sOptData ∨ l = sOptIj ∨ e = .member (.local l) sLength
   | .optData k', l, _, h => by
     simp only [plain, PE.member.injEq, PE.ident.injEq] at h
-    exact h.1.symm
+    exact Or.inl h.1.symm
   | .member x k', l, hi, h => by
-    simp only [Img] at hi
     simp only [plain, PE.member.injEq] at h
-    exact absurd h.2 hi.2.2.2
+    obtain ⟨hx, rfl⟩ := h
+    rcases plain_ident x l hx with rfl | ⟨rfl, rfl⟩
+    · exact Or.inr (Or.inr rfl)
+    · exact Or.inr (Or.inl rfl)
   | .call1 .length a, l, hi, h => by
     simp only [plain, PE.member.injEq] at h
     exact absurd h.1 (by simp)
@@ -2159,7 +2177,8 @@ theorem plain_member_length : ∀ (e : JsExpr) (l : Bytes), Img e → plain e = 
   | .loopLastRange _ _ _, _, _, h => by cases h
 
 /-- `var x = e;` -/
-theorem readVar_plain (x : Bytes) (e : JsExpr) (he : Img e) : readVar x (plain e) = some (canonS (.var x e)) := by
+theorem readVar_plain (x : Bytes) (e : JsExpr) (he : Img e) (hnl : ∀ l, e ≠ .member (.local l) sLength) :
+    readVar x (plain e) = some (canonS (.var x e)) := by
   by_cases h1 : plain e = .str []
   · have := plain_str e [] h1
     subst this
@@ -2174,8 +2193,10 @@ theorem readVar_plain (x : Bytes) (e : JsExpr) (he : Img e) : readVar x (plain e
     intro l k hp
     by_cases hk : k = sLength
     · subst hk
-      rw [plain_member_length e l he hp]
-      simp
+      rcases plain_member_length e l he hp with rfl | rfl | rfl
+      · simp
+      · simp
+      · exact absurd rfl (hnl l)
     · simp [hk]
 
 theorem isOptData_plain (e : JsExpr) (h : Img e) : isOptData (plain e) = false := by
@@ -2296,7 +2317,7 @@ mutual
     | .var x e, h => by
       simp only [ImgS] at h
       simp only [plainS, readS]
-      exact readVar_plain x e h.2
+      exact readVar_plain x e h.2.1 h.2.2
     | .varEmpty x, _ => by simp [plainS, readS, readVar, canonS]
     | .ifs conds, h => by
       simp only [ImgS] at h
@@ -3173,7 +3194,7 @@ def exSs : JsStmts :=
 theorem exSs_img : ImgSs exSs := by
   simp only [exSs, ImgSs, ImgS, ImgConds, ImgBase, ImgParams, Img, lv]
   refine ⟨⟨jsName_of (by decide), jsIdent_of (by decide), ?_⟩, ⟨trivial, ⟨jsIdent_of (by decide), trivial⟩,
-      ⟨⟨jsName_of (by decide), ?_⟩, trivial⟩, ⟨⟨jsName_of (by decide), trivial, by decide⟩, trivial⟩⟩,
+      ⟨⟨jsName_of (by decide), ?_⟩, trivial⟩, ⟨⟨jsName_of (by decide), ⟨trivial, by decide⟩, fun l h => by cases h⟩, trivial⟩⟩,
     ⟨jsName_of (by decide), jsName_of (by decide), ⟨jsName_of (by decide), jsName_of (by decide), jsName_of (by decide)⟩, trivial⟩,
     ⟨jsName_of (by decide), qOkB_ok (by decide), trivial, jsIdent_of (by decide), ?_, trivial⟩, trivial⟩
   · intro d hd
@@ -3215,6 +3236,12 @@ example : printPieces (render (.neg (.call1 .nonNull (.call1 .nonNull (.optData 
 example : jsParseExpr b!"(- ((opt_data.x != null) != null))" = some (.neg (.call1 .nonNull (.call1 .nonNull (.optData b!"x")))) :=
   jsparse_render_expr (.neg (.call1 .nonNull (.call1 .nonNull (.optData b!"x"))))
     (by simp only [Img, lv]; exact ⟨⟨⟨⟨_, _, rfl, rfl, by decide⟩, by omega⟩, by omega⟩, by omega⟩)
+/-- the data KEY `length` and the length FUNCTION: textually distinct since soyjs 0a4b4eb, and read apart -/
+example : jsParseExpr b!"opt_data.x.length" = some (.member (.optData b!"x") b!"length") :=
+  jsparse_render_expr (.member (.optData b!"x") b!"length")
+    (by simp only [Img]; exact ⟨⟨_, _, rfl, rfl, by decide⟩, rfl, ⟨_, _, rfl, rfl, by decide⟩, fun _ => rfl⟩)
+example : jsParseExpr b!"(opt_data.x).length" = some (.call1 .length (.optData b!"x")) :=
+  jsparse_render_expr (.call1 .length (.optData b!"x")) (by simp only [Img]; exact ⟨_, _, rfl, rfl, by decide⟩)
 example : jsParseExpr b!"(5).length" = some (.call1 .length (.num 5)) :=                    -- … and since
   jsparse_render_expr (.call1 .length (.num 5)) (by simp [Img])
 example : jsParseExpr b!"soy.$$augmentMap(opt_data, {2nd: 1})" = none := by decide +kernel
